@@ -524,6 +524,70 @@ def run_case(program, choices, t=None, trace=False, faults=True):
                 )
         if t is not None:
             t.count("variant_missing", 2)
+
+    # ---- (ii) a list target given as a non-list (falsy ones included) ----
+    NONLISTS = [0, False, None, b"", "", {}, (), _bitarray()(), 7, "ab"]
+    for path, node in _walk_containers(res.tree):
+        if isinstance(node, M.DictNode) or not path:
+            continue
+        for bad in NONLISTS:
+            d = to_real(res.tree, typed=False)
+            parent = _nav(d, path[:-1])
+            parent[path[-1]] = bad
+            v = run_serialiser(program, d, None)
+            if type(v.exc) is not bx.ListTargetContainsNonListError:
+                problems.append("list target at %r given as %r: serialiser gave %s, expected ListTargetContainsNonListError" % (list(path), bad, _exc_name(v.exc or v.verify_exc)))
+            if t is not None:
+                t.count("variant_nonlist")
+
+    # ---- (ii) two needed values of one dictionary removed, defaults per context type ----
+    removable = []
+    for site in res.sites:
+        container_m = _nav_model(res.tree, site["container"])
+        if site["is_list"] and site["key"] != len(container_m) - 1:
+            continue
+        removable.append(site)
+    for a, b in itertools.combinations(removable, 2):
+        if a["is_list"] and b["is_list"] and a["container"] == b["container"]:
+            continue  # two elements of the same list
+        ca = a["container"][:-1] if a["is_list"] else a["container"]
+        cb = b["container"][:-1] if b["is_list"] else b["container"]
+        if ca != cb or a["target"] == b["target"]:
+            continue
+        defaults = {T: {} for T in types}
+        over = {}
+        for site in (a, b):
+            alphabet = site["alphabet"]
+            dflt = alphabet[(site["choice"] + 1) % len(alphabet)]
+            other = alphabet[site["choice"]]
+            over[site["site"]] = dflt
+            for ti, T in enumerate(types):
+                defaults[T][site["target"]] = leaf_to_real(dflt if ti == site["ctx_type"] else other)
+        try:
+            res2 = M.interpret(program, res.choices, override=over)
+        except IndexError:
+            res2 = None
+        if res2 is None or res2.error is not None or [x["value"] for x in res2.sites] != [x["value"] for x in res.sites[: len(res2.sites)]]:
+            if t is not None:
+                t.count("variant_missing_pair_skipped")
+            continue
+        d = to_real(res.tree, typed=False)
+        for site in (b, a):
+            c = _nav(d, site["container"])
+            del c[site["key"]]
+        v = run_serialiser(program, d, None, defaults=defaults)
+        e = v.exc or v.verify_exc
+        if e is not None:
+            problems.append("needed values %r and %r removed, defaults given: serialiser raised %s" % (a["target"], b["target"], _exc_name(e)))
+        elif v.data != res2.data:
+            problems.append(
+                "needed values %r (context type %d) and %r (context type %d) removed, defaults per context type: serialiser wrote %s, expected %s"
+                % (a["target"], a["ctx_type"], b["target"], b["ctx_type"], v.data.hex(), res2.data.hex())
+            )
+        if t is not None:
+            t.count("variant_missing_pair")
+            if a["ctx_type"] != b["ctx_type"]:
+                t.count("variant_missing_pair_across_type_change")
     return problems
 
 
